@@ -875,8 +875,8 @@ class exists_elim(Method):
                     item.prevs = item.prevs[:-1] + new_intros + [item.prevs[-1]]
                     break
                 elif item.rule not in ('assume', 'variable'):
-                    state.set_line(id.incr_id(i), item.rule, args=item.args, prevs=item.prevs, \
-                                   th=Thm(item.th.prop, item.th.hyps, body))
+                    # (in place: set_line would drop the subproof of a subproof line)
+                    item.th = Thm(item.th.prop, item.th.hyps, body)
             i += 1
 
 
